@@ -463,6 +463,39 @@ def run(db, tier):
     from props import c09
     rep.rule("R-PARTIAL-ITER", "the type checker never walks a collection of AST nodes through an element-dropping adaptor (shared with C09)")
     c09.rule_partial_iter(db, rep)
+    # ---------------- R-RECOVERY-STATE: bookkeeping that is asserted after an error-recovering loop is done before anything can fail
+    rep.rule("R-RECOVERY-STATE", "old-ECL compile: each `script` item takes its timeline slot before any fallible step of the same item (the loop recovers "
+                                 "from errors and `assert_eq!(timeline_indices_in_ast_order.next(), None)` follows it: an item that fails after the "
+                                 "diagnostic but before taking its slot turns the diagnostic into a panic)")
+    ce = db.fn("formats::ecl::ecl_06::compile")
+    rep.fn(ce)
+    found = False
+    ok_rs = False
+    why_rs = "the Item::Script arm of the old-ECL compile loop was not found"
+    for n in hir_walk(ce.hir):
+        if n.get("k") != "Match":
+            continue
+        for arm in n["arms"]:
+            if not any(s_ and s_.startswith("ast::Item::Script") for s_ in arms.pat_sig(arm["p"])):
+                continue
+            seq = []
+            for x in hir_walk(arm["b"]):
+                if x.get("k") == "Match" and (x.get("src") or "").startswith("TryDesugar"):
+                    seq.append("try")
+                elif x.get("k") == "MCall" and (x.get("f") or "").endswith("Iterator::next") and any(
+                        y.get("k") == "Path" and y.get("p") == "timeline_indices_in_ast_order" for y in hir_walk(x.get("r") or {})):
+                    seq.append("slot")
+            if "slot" not in seq:
+                continue
+            found = True
+            ok_rs = seq.index("slot") < (seq.index("try") if "try" in seq else len(seq))
+            why_rs = "in the Item::Script arm a `?` comes before timeline_indices_in_ast_order.next(): %s" % seq
+    asserted = any((t.get("f") or "").startswith("core::panicking::assert_failed") for _, t in ce.calls())
+    rep.check(found and ok_rs, "R-RECOVERY-STATE", "ecl_06::compile|Script takes its slot first", ce.loc,
+              "the slot is taken before the first fallible step%s" % ("" if asserted else " (the trailing assert is gone)"), why_rs)
+    # a mapfile signature that the intrinsic ABI check lets through must be one the lowerer can place (shared with C12)
+    from props import c12
+    c12.rule_jump_adjacent(db, rep)
     return rep
 
 
